@@ -15,6 +15,7 @@
   C09.onehot-range generator guards the address-space bounds; default bounds are (#subnets, max size)
 """
 import ast
+import re
 
 from sa.canon import Canon, f_show
 from sa.ctx import HV_MOD, STATE_MOD, OBS_MOD, store_effect
@@ -183,6 +184,7 @@ def run(ctx, chk):
     check_dims(ctx, chk)
     check_flatten_reshape(ctx, chk)
     check_order(ctx, chk)
+    check_reinit(ctx, chk)
     check_order_stable(ctx, chk)
     check_onehot_range(ctx, chk)
     chk.assume("'decoding the initial state reproduces every host definition' is concluded from "
@@ -521,6 +523,73 @@ def check_flatten_reshape(ctx, chk):
             chk.ob("C09.from-numpy", "State.from_numpy builds State(<the array>, host_num_map)", okn,
                    str([[cn.show(a)[:80] for a in ev.data["args"]] for ev in news]),
                    f"{ci.module.path}:{m.node.lineno}")
+
+
+def check_reinit(ctx, chk):
+    """the name -> column maps that vectorize / the decoders use must be those of the scenario
+    being vectorised: State.generate_initial_state re-initialises the class-level layout before
+    tensorizing - always, or unless a comparison that is sensitive to the *order* of the OS /
+    service / process names says the layout in place is this scenario's (two scenarios with the
+    same counts, or the same names in another order, have different maps)"""
+    from sa.canon import f_atoms, f_not
+    st = ctx.repo.cls(STATE_MOD, "State")
+    g = st.methods.get("generate_initial_state")
+    desc = ("State.generate_initial_state re-initialises the host-vector layout for the scenario "
+            "it vectorises (unconditionally, or unless the names in place are compared in order)")
+    if g is None or len(g.params) < 2:
+        chk.undecided("C09.reinit", desc, "State.generate_initial_state(cls, network) not found",
+                      st.module.path)
+        return
+    RESET = f"{HV_MOD}:HostVector.reset"
+    TENS = f"{STATE_MOD}:State.tensorize"
+    ip = Interp(ctx.repo, ctx.types, param_types={g.params[1]: "Network"},
+                no_inline=(RESET, TENS, "nasim.envs.network:Network.reset"))
+    s = ip.run(g, {g.params[0]: ("classref", "State")})
+    cn = Canon(ip, ctx.layout)
+    loc = f"{st.module.path}:{g.node.lineno}"
+    tens = [ev for ev in s.events if ev.kind == "call" and ev.data["fname"] == TENS]
+    resets = [ev for ev in s.events if ev.kind == "call" and ev.data["fname"] == RESET]
+    if len(tens) != 1:
+        chk.undecided("C09.reinit", desc, f"{len(tens)} call(s) of State.tensorize", loc)
+        return
+    before = [ev for ev in resets if ev.seq < tens[0].seq]
+    if not before:
+        chk.ob("C09.reinit", desc, False, "HostVector.reset() is not called before the state is "
+               "tensorized: the index maps of the previous scenario stay in place", loc)
+        return
+    F = cn.conj(tuple(c for ev in before[:1] for c in ev.pc if c[0] != "fact"))
+    if len(before) == 1 and F == ("true",):
+        chk.ob("C09.reinit", desc, True, "", loc)
+        return
+    if len(before) != 1:
+        chk.undecided("C09.reinit", desc, f"{len(before)} conditional reset sites", loc)
+        return
+    # the layout is kept under not F: which comparisons decide that?
+    atoms = sorted(f_atoms(f_not(F)))
+    verdicts = {}
+    for grp, mp in (("os", "os_idx_map"), ("services", "service_idx_map"),
+                    ("processes", "process_idx_map")):
+        mine = [a for a in atoms if mp in a]
+        ordered = [a for a in mine if re.fullmatch(
+            r"(list|tuple)\((HostVector\.%s|.+\.%s)\)==(list|tuple)\((HostVector\.%s|.+\.%s)\)"
+            % (mp, grp, mp, grp), a)]
+        unordered = [a for a in mine if re.fullmatch(
+            r"(set\()?(HostVector\.%s|.+\.%s)\)?==(set\()?(HostVector\.%s|.+\.%s)\)?"
+            % (mp, grp, mp, grp), a)]
+        verdicts[grp] = ("ordered" if ordered else "unordered" if unordered else
+                         "absent" if not mine else "other")
+    detail = (f"the layout in place is kept unless {f_show(F)[:300]}; comparison of the names: "
+              f"{verdicts}")
+    if all(v == "ordered" for v in verdicts.values()):
+        chk.ob("C09.reinit", desc, True, detail, loc)
+    elif any(v in ("absent", "unordered") for v in verdicts.values()):
+        chk.ob("C09.reinit", desc, False, detail + " - a scenario with the same sizes but other "
+               "names, or the same names in another order, would be decoded through the previous "
+               "scenario's index maps (dict and keys() comparisons ignore order)", loc)
+    else:
+        chk.undecided("C09.reinit", desc, detail, loc)
+    # the counterpart in HostVector: vectorize initialises exactly when reset() left its mark
+    hv = ctx.repo.cls(HV_MOD, "HostVector")
 
 
 def check_order(ctx, chk):
